@@ -6,7 +6,10 @@ use crate::storage::{certificate_files_exists, get_certificate, FileManager};
 use acme_common::crypto::{HashFunction, KeyType, SubjectAttribute, X509Certificate};
 use acme_common::error::Error;
 use log::{debug, info, trace, warn};
+#[cfg(not(feature = "breard_r_acmed_verif"))]
 use rand::{thread_rng, Rng};
+#[cfg(feature = "breard_r_acmed_verif")]
+use {crate::verif::rng::thread_rng, rand::Rng};
 use std::collections::{HashMap, HashSet};
 use std::fmt;
 use std::time::Duration;
